@@ -11,14 +11,17 @@
          bool), symbolic clock / skew / key map (<= 2 kids, rotation overlap: both carry the same
          label) / nonce cache answer.  Compared with the table of §6 transcribed as a straight-line
          oracle: same accept / same reason, first failing step wins, only ``ProofError`` escapes, no MAC
-         is computed and the nonce cache is not touched before the earlier steps passed, the MAC input is
-         ``canonical_string(kid, ts, nonce, origin_id)`` under the secret selected by ``kid``.
+         is computed for a token that fails steps 2-4, the nonce cache is touched (once) only for a proof
+         whose MAC verified, the deciding MAC is over ``canonical_string(kid, ts, nonce, origin_id)`` under
+         the secret selected by ``kid``.  (Not claimed: when the clock / key map are consulted.)
 (c) xh : ``canonical_string`` on short symbolic fields == NUL-join of the domain prefix and the four
-         fields, and is injective on NUL-free fields.
-(d) xh : the ``gate`` closure of ``proxy_proof_gate`` (``verify_proof`` stubbed): absent/empty header =>
-         ``no_proof``, comma => ``malformed`` without consulting the verifier; in require mode every
-         failure is the *same* ProofError (constant text, public reason ``proxy_required``, no echo of the
-         verifier's reason/detail); in allow mode the claims carry the verifier's reason and no kid.
+         fields (an out-of-charset field may instead be refused with ValueError, spec §4), and is
+         injective on NUL-free fields.
+(d) xh : the ``gate`` closure of ``proxy_proof_gate`` (``verify_proof`` stubbed): absent header =>
+         ``no_proof``, empty value or comma => ``malformed`` (spec §6 rows 1-2); in require mode every
+         failure is the *same* ProofError (reads exactly like the refusal of a request without the header,
+         public reason ``proxy_required``, no echo of the verifier's reason/detail); in allow mode the
+         claims carry the table's reason and no kid.
 (e) xh : nothing stubbed — the real ``verify_proof`` on every string of <= N chars, and on a valid
          token with one field replaced by an arbitrary short string (outcomes before the MAC only).
 """
@@ -33,13 +36,14 @@ from engine.api import QUICK, REPO, HarnessModelError, cond, pick, task
 from engine.reglob import reglobalize
 
 from vgi_rpc.http import _proof as pf
-from vgi_rpc.http._unauthorized import REASON_ATTR, AuthReason, classify_auth_failure
+from vgi_rpc.http._unauthorized import AuthReason, classify_auth_failure
 
 PROPERTY = "C22"
 ENCODED = [pf.verify_proof, pf.canonical_string, pf.proxy_proof_gate, pf.ProofError]
 BOUNDS = (
-    "rx: all strings over code points 0..0x2FFFF; decision table: unbounded ints for token length/ts/now/skew(>=0), field count 1..7, "
-    "version any str len<=3, per-field charset verdict free, key map <=2 kids; canonical_string: fields len<=2; gate: header absent or "
+    "rx: all strings over code points 0..0x2FFFF; decision table: unbounded ints for token length/now/skew(>=0), 0<=ts<10**20 (the 20-digit "
+    "row of §3), |now|<=2**53 when read from the float wall clock, field count 1..7, "
+    "version any str len<=3, per-field charset verdict free, key map 3 kids (two share a label); canonical_string: one varied field len<=2 (nonce: 20 fixed + <=2); gate: header absent or "
     "any str len<=2; un-stubbed: all tokens len<=%d and one-field mutations len<=2 of a minted token" % pick(6, 8)
 )
 OUTSIDE = (
@@ -427,6 +431,10 @@ _STUBS_B = [
 ]
 
 
+_TS_MAX = 10**20  # §3: ts is [0-9]{1,20}; a value with more digits cannot be the int() of a field that passed step 4
+_WALL_MAX = 2**53  # time.time() returns a float; integers beyond 2**53 are not exactly representable
+
+
 def _replay_table(args: dict) -> str | None:
     """Un-stubbed verify_proof on a concrete token realising the abstract counterexample."""
     from vgi_rpc.http._replay import NonceCache
@@ -451,6 +459,13 @@ def _replay_table(args: dict) -> str | None:
         f[3] = f[3][:-1]
     if not args["mac_cs"]:
         f[4] = f[4][:-1] + "="
+    # the realised fields must have exactly the charset verdicts the counterexample assumed (judged by the spec rows,
+    # not by the code); otherwise this concrete token is not an instance of the abstract counterexample
+    for row, flag, text in (("_KID_RE", "kid_ok", f[1]), ("_TS_RE", "ts_ok", f[2]), ("_NONCE_RE", "nonce_ok", f[3]), ("_MAC_RE", "mac_cs", f[4])):
+        if (re.fullmatch(SPEC_ROWS[row], text, re.ASCII) is not None) != bool(args[flag]):
+            return None
+    if not args["now_given"] and abs(now) > _WALL_MAX:
+        return None  # time.time() is a float: such a wall clock cannot be delivered exactly
     n = int(args["nfields"])
     f = (f + ["x", "y"])[:n]
     token = ".".join(f)
@@ -498,7 +513,31 @@ def _replay_table(args: dict) -> str | None:
             return f"forged proof {forged!r} -> {e.reason}, the table says bad_mac"
     if len(probe_cache) != 0:
         return f"verify_proof remembered the nonce of a proof whose MAC did not verify ({forged!r}): an attacker can burn nonces / evict real ones"
+    # the abstract run also checks *what* is MACed; its observable consequence: a token built by hand from §3/§4 of the
+    # specification (HMAC-SHA256 over prefix NUL kid NUL ts NUL nonce NUL origin_id, base64url unpadded) under the
+    # secret its kid selects is accepted by this worker, and the same token computed for another origin is bad_mac
+    for origin, table in ((_ORIGIN, "ok"), ("worker-b", "bad_mac")):
+        for kid_name, key in (("kid-one", real[1]), ("kid-two", real[2]), ("kid-three", real[3])):
+            tok = _spec_token(key, kid_name, 1000, "S" * 22, origin)
+            try:
+                pf.verify_proof(tok, secrets=secrets, origin_id=_ORIGIN, skew_seconds=30, nonce_cache=None, now=1000)
+                got = "ok"
+            except pf.ProofError as e:
+                got = e.reason
+            if got != table:
+                return f"verify_proof({tok!r}) (built from spec §3/§4 for origin {origin!r}, verified by {_ORIGIN!r}) -> {got}; the table says {table}"
     return None
+
+
+def _spec_token(secret: bytes, kid: str, ts: int, nonce: str, origin_id: str) -> str:
+    """docs/proxy-proof-spec.md §3/§4, computed with the standard library only (not with the repository's minting code)."""
+    import base64
+    import hashlib
+    import hmac
+
+    msg = b"vgi.proxy.proof.v1\x00" + kid.encode() + b"\x00" + str(ts).encode() + b"\x00" + nonce.encode() + b"\x00" + origin_id.encode()
+    mac = base64.urlsafe_b64encode(hmac.new(secret, msg, hashlib.sha256).digest()).rstrip(b"=").decode()
+    return f"v1.{kid}.{ts}.{nonce}.{mac}"
 
 
 _KEYS = {1: b"S1" * 16, 2: b"S2" * 16, 3: b"S3" * 16}
@@ -517,7 +556,8 @@ def _table_check(length: int, nfields: int, version: str, kid_ok: bool, ts_ok: b
         claims = _verify_stubbed(_TOKEN, secrets=_SECRETS, origin_id=_ORIGIN, skew_seconds=_SymInt(skew), nonce_cache=_CACHE if use_cache else None, now=_SymInt(now) if now_given else None)
     except pf.ProofError as e:
         got = e.reason
-        if getattr(e, REASON_ATTR, None) is not AuthReason.PROXY_REQUIRED:
+        # spec §6: every verifier outcome collapses onto the public code proxy_required
+        if classify_auth_failure(e) is not AuthReason.PROXY_REQUIRED:
             return False
     except HarnessModelError:
         raise
@@ -527,33 +567,37 @@ def _table_check(length: int, nfields: int, version: str, kid_ok: bool, ts_ok: b
     if got != want:
         return False
     order = _H["order"]
-    if ("clock" in order) != ((not now_given) and want not in ("malformed", "unknown_kid")):
+    # Only what the specification states about the order of effects (not the code's own sequence: when the
+    # clock is read, when the key map is consulted and whether a MAC is computed after step 4 are free):
+    # §6 "steps 1-4 involve no MAC computation and MUST be performed first"
+    if want == "malformed" and "mac" in order:
         return False
-    # steps 1-4 involve no MAC computation, and are performed first
-    if want == "malformed" and ("mac" in order or "lookup" in order or "cache" in order):
-        return False
-    if want in ("unknown_kid", "expired", "not_yet_valid") and ("mac" in order or "cache" in order):
-        return False
-    # the nonce is remembered only for a proof whose MAC verified
-    if ("cache" in order) != (use_cache and want in ("ok", "replayed")):
+    # the nonce history holds accepted proofs only: a proof that failed any of steps 2-8 leaves it untouched
+    if want not in ("ok", "replayed") and "cache" in order:
         return False
     if want in ("ok", "replayed", "bad_mac"):
-        if len(_H["macs"]) != 1 or len(_H["compared"]) != 1:
-            return False
-        d = _H["macs"][0]
+        # the MAC that decides is the one over canonical_string(kid, ts, nonce, origin_id) under the secret kid selects
         key = _KEYS[1]
         for k in (2, 3):
             if kid_sel == k:
                 key = _KEYS[k]
-        if d.key != key or d.msg != ("canonical", _F_KID, _F_TS, _F_NONCE, _ORIGIN):
+        d = None
+        for m in _H["macs"]:
+            if m.key == key and m.msg == ("canonical", _F_KID, _F_TS, _F_NONCE, _ORIGIN):
+                d = m
+        if d is None:
             return False
-        a, b = _H["compared"][0]
-        if not ((a == ("received", _F_MAC) and b is d) or (b == ("received", _F_MAC) and a is d)):
+        decided = False
+        for a, b in _H["compared"]:
+            if (a == ("received", _F_MAC) and b is d) or (b == ("received", _F_MAC) and a is d):
+                decided = True
+        if not decided:
             return False
+    # NonceCache.check_and_add is test-and-set: a second call for the same proof would itself answer "seen"
     if use_cache and want in ("ok", "replayed") and _H["cache_args"] != [_F_NONCE]:
         return False
     if want == "ok":
-        if claims is None or len(claims) != 5:
+        if claims is None:
             return False
         label = "proxy-B" if kid_sel == 3 else "proxy-A"
         return bool(claims["verified"] == "true" and claims["proxy"] == label and claims["kid"] is _F_KID and claims["origin_id"] == _ORIGIN and claims["reason"] == "ok")
@@ -561,37 +605,47 @@ def _table_check(length: int, nfields: int, version: str, kid_ok: bool, ts_ok: b
 
 
 _B_BOUND = "unbounded ints (length>=0, ts>=0, now, skew>=0), nfields 1..7, version any str len<=3, charset verdicts free, kid_sel 0..3"
-_B_SIG = lambda args, conc: "C22:verify_proof:differs-from-decision-table"  # noqa: E731
+
+
+def _b_sig(use_cache: bool):  # type: ignore[no-untyped-def]
+    """One signature per table row the counterexample falls on (the row the specification says decides it)."""
+
+    def sig(args: dict, conc) -> str:  # type: ignore[no-untyped-def]
+        row = _table(args["length"], args["nfields"], args["version"], args["kid_ok"], args["ts_ok"], args["nonce_ok"], args["mac_cs"], args["kid_sel"],
+                     args["now"], args["ts"], args["skew"], args["mac_ok"], use_cache, args["fresh"])
+        return "C22:verify_proof:differs-from-decision-table:expected-" + row
+
+    return sig
 
 
 @cond(q=60, t=300, stubs=_STUBS_B, encoded=[pf.verify_proof], bound=_B_BOUND + "; now= given, replay cache present",
-      replay=lambda a: _replay_table({**a, "now_given": True, "use_cache": True}), signature=_B_SIG)
+      replay=lambda a: _replay_table({**a, "now_given": True, "use_cache": True}), signature=_b_sig(True))
 def verify_equals_decision_table(length: int, nfields: int, version: str, kid_ok: bool, ts_ok: bool, nonce_ok: bool, mac_cs: bool, kid_sel: int,
                                  now: int, ts: int, skew: int, mac_ok: bool, fresh: bool) -> bool:
     """
-    pre: length >= 0 and 1 <= nfields <= 7 and len(version) <= 3 and 0 <= kid_sel <= 3 and ts >= 0 and skew >= 0
+    pre: length >= 0 and 1 <= nfields <= 7 and len(version) <= 3 and 0 <= kid_sel <= 3 and 0 <= ts < _TS_MAX and skew >= 0
     post: _
     """
     return _table_check(length, nfields, version, kid_ok, ts_ok, nonce_ok, mac_cs, kid_sel, now, ts, skew, mac_ok, fresh, True, True)
 
 
 @cond(q=60, t=300, stubs=_STUBS_B, encoded=[pf.verify_proof], bound=_B_BOUND + "; now= given, no replay cache",
-      replay=lambda a: _replay_table({**a, "now_given": True, "use_cache": False}), signature=_B_SIG)
+      replay=lambda a: _replay_table({**a, "now_given": True, "use_cache": False}), signature=_b_sig(False))
 def verify_equals_decision_table_no_cache(length: int, nfields: int, version: str, kid_ok: bool, ts_ok: bool, nonce_ok: bool, mac_cs: bool, kid_sel: int,
                                           now: int, ts: int, skew: int, mac_ok: bool, fresh: bool) -> bool:
     """
-    pre: length >= 0 and 1 <= nfields <= 7 and len(version) <= 3 and 0 <= kid_sel <= 3 and ts >= 0 and skew >= 0
+    pre: length >= 0 and 1 <= nfields <= 7 and len(version) <= 3 and 0 <= kid_sel <= 3 and 0 <= ts < _TS_MAX and skew >= 0
     post: _
     """
     return _table_check(length, nfields, version, kid_ok, ts_ok, nonce_ok, mac_cs, kid_sel, now, ts, skew, mac_ok, fresh, True, False)
 
 
 @cond(q=60, t=300, stubs=_STUBS_B, encoded=[pf.verify_proof], bound=_B_BOUND + "; now=None (wall clock stub), replay cache present",
-      replay=lambda a: _replay_table({**a, "now_given": False, "use_cache": True}), signature=_B_SIG)
+      replay=lambda a: _replay_table({**a, "now_given": False, "use_cache": True}), signature=_b_sig(True))
 def verify_equals_decision_table_wall_clock(length: int, nfields: int, version: str, kid_ok: bool, ts_ok: bool, nonce_ok: bool, mac_cs: bool, kid_sel: int,
                                             now: int, ts: int, skew: int, mac_ok: bool, fresh: bool) -> bool:
     """
-    pre: length >= 0 and 1 <= nfields <= 7 and len(version) <= 3 and 0 <= kid_sel <= 3 and ts >= 0 and skew >= 0
+    pre: length >= 0 and 1 <= nfields <= 7 and len(version) <= 3 and 0 <= kid_sel <= 3 and 0 <= ts < _TS_MAX and skew >= 0 and -_WALL_MAX <= now <= _WALL_MAX
     post: _
     """
     return _table_check(length, nfields, version, kid_ok, ts_ok, nonce_ok, mac_cs, kid_sel, now, ts, skew, mac_ok, fresh, False, True)
@@ -603,22 +657,44 @@ def verify_equals_decision_table_wall_clock(length: int, nfields: int, version: 
 
 _LC = pick(2, 3)
 _CFIELDS = ["k1", "1700000000", "abcdefghijklmnopqrstuv", "worker-a"]
+_NONCE_PREFIX = "abcdefghijklmnopqrst"  # 20 of the 22 nonce characters
+_AL_KID = "ABCDEFGHIJKLMNOPQRSTUVWXYZabcdefghijklmnopqrstuvwxyz0123456789_-"  # §3 kid / base64url alphabet
+_AL_ORIGIN = _AL_KID + "._:/"  # §4 origin_id alphabet
 
 
-@cond(q=40, t=200, encoded=[pf.canonical_string], bound="any one of the four fields = any str len<=%d, the others fixed" % _LC)
+def _all_in(x: str, alphabet: str) -> bool:
+    for c in x:
+        if c not in alphabet:
+            return False
+    return True
+
+
+@cond(q=40, t=200, encoded=[pf.canonical_string], bound="kid | ts | origin_id = any str len<=%d, or nonce = 20 fixed chars + any str len<=%d; the others fixed; a ValueError refusal is accepted for out-of-charset fields only" % (_LC, _LC))
 def canonical_string_is_nul_join(which: int, x: str) -> bool:
     """
     pre: 0 <= which <= 3 and len(x) <= _LC
     post: _
     """
     f = list(_CFIELDS)
-    for k in range(4):
-        if which == k:
-            f[k] = x
+    # in_domain: the varied field satisfies its §3/§4 row (the nonce row needs 22 chars: fixed 20-char prefix + x)
+    if which == 0:
+        f[0] = x
+        in_domain = len(x) >= 1 and _all_in(x, _AL_KID)
+    elif which == 1:
+        f[1] = x
+        in_domain = len(x) >= 1 and _all_in(x, "0123456789")
+    elif which == 2:
+        f[2] = _NONCE_PREFIX + x
+        in_domain = len(x) == 2 and _all_in(x, _AL_KID)
+    else:
+        f[3] = x
+        in_domain = len(x) >= 1 and _all_in(x, _AL_ORIGIN)
     try:
         got = pf.canonical_string(f[0], f[1], f[2], f[3])
-    except UnicodeEncodeError:
-        return True  # lone surrogates cannot be encoded; no spec-charset field contains one
+    except ValueError:
+        # §4: "an out-of-charset value is a rejection, not something to encode around" — refusing such a field
+        # (a lone surrogate cannot even be encoded) is allowed; refusing an in-charset one is not
+        return not in_domain
     except Exception:  # noqa: BLE001
         return False
     want = b"vgi.proxy.proof.v1\x00" + f[0].encode() + b"\x00" + f[1].encode() + b"\x00" + f[2].encode() + b"\x00" + f[3].encode()
@@ -628,7 +704,7 @@ def canonical_string_is_nul_join(which: int, x: str) -> bool:
     return "\x00" in x or got.count(b"\x00") == 4
 
 
-_LI = pick(1, 2)
+_LI = 1  # (two quadruples of fields of <= 2 characters did not exhaust within 300 s CPU: an item that is always INCONCLUSIVE says nothing)
 
 
 @cond(q=60, t=300, tiers=("thorough",), encoded=[pf.canonical_string], bound="two quadruples of NUL-free ASCII fields, len<=%d each" % _LI)
@@ -643,6 +719,8 @@ def canonical_string_injective_on_nul_free_fields(k1: str, t1: str, n1: str, o1:
     try:
         a = pf.canonical_string(k1, t1, n1, o1)
         b = pf.canonical_string(k2, t2, n2, o2)
+    except ValueError:
+        return True  # a refused (out-of-charset / too short) field yields no canonical string to collide with (§4)
     except Exception:  # noqa: BLE001
         return False
     if a == b:
@@ -658,12 +736,27 @@ _G: dict = {"outcome": 0, "calls": 0, "detail": ""}
 _REASONS = ("malformed", "unknown_kid", "expired", "not_yet_valid", "bad_mac", "replayed")
 
 
-def _stub_verify_for_gate(token, *, secrets, origin_id, skew_seconds=30, nonce_cache=None, now=None):  # type: ignore[no-untyped-def]
+_VSIG = inspect.signature(pf.verify_proof)
+
+
+def _stub_verify_for_gate(*a, **k):  # type: ignore[no-untyped-def]
+    ba = _VSIG.bind(*a, **k)  # the live signature: a positional or a keyword call are the same thing (a call that does not fit it is the gate's TypeError)
+    ba.apply_defaults()
+    p = ba.arguments
+    try:
+        token = p["token"]
+        _G["args"] = (token, p["secrets"], p["origin_id"], p["skew_seconds"], p["nonce_cache"], p["now"])
+    except KeyError as e:
+        raise HarnessModelError(f"verify_proof parameter {e} no longer exists") from None
     _G["calls"] += 1
-    _G["args"] = (token, secrets, origin_id, skew_seconds, nonce_cache, now)
+    # What the real verifier answers for these values whatever the rest of its input: every token of <= 6 characters is
+    # 'malformed' (item real_short_tokens_are_malformed), and so is one containing a comma (item (a): no field charset
+    # has a comma, field 0 must equal 'v1', a sixth field is a wrong count).  So a gate may hand them to the verifier.
+    if token == "" or "," in token:
+        raise pf.ProofError("malformed", "expected 5 fields, got 'claimed-kid-marker'")
     o = _G["outcome"]
     if o == 0:
-        return {"verified": "true", "proxy": "L", "kid": "claimed-kid", "origin_id": origin_id, "reason": "ok"}
+        return {"verified": "true", "proxy": "L", "kid": "claimed-kid", "origin_id": p["origin_id"], "reason": "ok"}
     if 1 <= o <= 6:
         # like the real verifier, the detail may quote caller-controlled text
         raise pf.ProofError(_REASONS[o - 1], "no secret for kid 'claimed-kid-marker'")
@@ -687,45 +780,116 @@ class _Req:
             return self._raw if self._present else default
         return default
 
+    def __getattr__(self, item: str):  # type: ignore[no-untyped-def]
+        if item.startswith("__"):
+            raise AttributeError(item)
+        raise HarnessModelError(f"request.{item} is not modelled")
+
 
 def _gate_expect(present: bool, raw: str, outcome: int) -> str:
-    if not present or raw == "":
-        return "no_proof"  # rows 1 / 2 (an empty value is indistinguishable from absence at the WSGI layer)
-    if "," in raw:
-        return "malformed"  # row 2: more than one header instance
+    """docs/proxy-proof-spec.md §6 rows 1-2, then the verifier's verdict."""
+    if not present:
+        return "no_proof"  # row 1: header absent
+    if raw == "" or "," in raw:
+        return "malformed"  # row 2: value empty / more than one header instance (WSGI joins instances with ', ')
     return "ok" if outcome == 0 else _REASONS[outcome - 1]
 
 
+def _refusal_of(gate, req):  # type: ignore[no-untyped-def]
+    try:
+        gate(req)
+    except pf.ProofError as e:
+        return e
+    except Exception:  # noqa: BLE001
+        return None
+    return None
+
+
+# the refusal a require-mode gate gives to a request without the header: every other refusal must read the same
+_REF_REFUSAL = _refusal_of(_GATES[True], _Req(False, ""))
+
+
 def _replay_gate(args: dict) -> str | None:
-    """Real gate + real verifier: uniformity of require-mode refusals over concrete failing requests."""
+    """Real gate + real verifier + real Falcon request: the counterexample's own request and one request per table row;
+    each must get the table's reason (allow: in the claims, require: on the refusal) and require-mode refusals must all read the same."""
     import falcon.testing
 
     require = bool(args["require"])
-    gate = pf.proxy_proof_gate(_CFG[require])
-    probes = [None, "", "v1.a,v1.b", "v1.evil-kid.100." + "A" * 22 + "." + "A" * 43, pf.mint_proof(b"\x22" * 32, "k1", _ORIGIN), "garbage"]
+    t0 = 1_700_000_000
+    gate = pf.proxy_proof_gate(_CFG[require], now=lambda: t0)  # real verifier, real replay cache; only the clock is injected (public parameter)
+    good, other = _SECRET_MAP["k1"][0], b"\x22" * 32
+    valid = pf.mint_proof(good, "k1", _ORIGIN, now=t0, nonce="R" * 22)
+    # (header value | None, the reason the table of docs/proxy-proof-spec.md §6 gives it), one per row
+    probes: list = [
+        (None, "no_proof"),  # 1
+        ("", "malformed"),  # 2 value empty
+        ("v1.a,v1.b", "malformed"),  # 2 more than one instance
+        ("garbage", "malformed"),  # 3
+        ("v1.evil kid.100." + "A" * 22 + "." + "A" * 43, "malformed"),  # 4
+        ("v1.evil-kid.100." + "A" * 22 + "." + "A" * 43, "unknown_kid"),  # 5
+        (pf.mint_proof(good, "k1", _ORIGIN, now=t0 - 1000), "expired"),  # 6
+        (pf.mint_proof(good, "k1", _ORIGIN, now=t0 + 1000), "not_yet_valid"),  # 7
+        (pf.mint_proof(other, "k1", _ORIGIN, now=t0), "bad_mac"),  # 8
+        (valid, "ok"),
+        (valid, "replayed"),  # 9
+    ]
+    # the request of the counterexample itself: a value of <= 2 characters is row 2 (empty, comma) or row 3 (field count)
+    if args["present"]:
+        try:
+            args["raw"].encode("latin-1")
+            probes.insert(0, (args["raw"], "malformed"))
+        except UnicodeError:
+            pass  # no HTTP server can deliver this value
     seen = set()
-    for p in probes:
-        req = falcon.testing.create_req(headers={} if p is None else {pf.PROOF_HEADER: p})
+    for p, table in probes:
+        try:
+            req = falcon.testing.create_req(headers={} if p is None else {pf.PROOF_HEADER: p})
+        except Exception:  # noqa: BLE001
+            continue  # not a deliverable header value
+        delivered = req.get_header(pf.PROOF_HEADER)
+        want = "no_proof" if delivered is None else table  # what the request object really carries decides row 1
+        if delivered is not None and delivered != p and len(p) > 2:
+            continue  # the test request builder altered a probe (a value of <= 2 characters stays row 2/3 whatever it did)
         try:
             claims = gate(req)
-            if require:
-                return f"require-mode gate passed {p!r}: {dict(claims)!r}"
-            if claims.get("verified") != "false" or claims.get("kid") or claims.get("proxy"):
-                return f"allow-mode claims for unverified {p!r}: {dict(claims)!r}"
         except pf.ProofError as e:
             if not require:
                 return f"allow-mode gate refused {p!r}"
+            if want == "ok":
+                return f"require-mode gate refused the valid proof {p!r} ({e.reason})"
+            if e.reason != want:
+                return f"gate reports {e.reason!r} for header {p!r}; the table of docs/proxy-proof-spec.md §6 says {want!r}"
             seen.add((str(e), classify_auth_failure(e)))
-            if "evil-kid" in str(e):
+            if "evil" in str(e):
                 return f"refusal echoes the claimed kid: {e}"
+            continue
+        except Exception as e:  # noqa: BLE001
+            return f"gate raised {type(e).__name__}: {e} for header {p!r} (only ProofError may escape)"
+        if want == "ok":
+            if claims.get("verified") != "true" or claims.get("reason") != "ok":
+                return f"valid proof {p!r} not attributed: {dict(claims)!r}"
+            continue
+        if require:
+            return f"require-mode gate passed {p!r} ({want}): {dict(claims)!r}"
+        if claims.get("verified") != "false" or claims.get("kid") or claims.get("proxy"):
+            return f"allow-mode claims for unverified {p!r}: {dict(claims)!r}"
+        if claims.get("reason") != want:
+            return f"allow-mode claims carry reason {claims.get('reason')!r} for header {p!r}; the table of docs/proxy-proof-spec.md §6 says {want!r}"
     if require and len(seen) != 1:
         return f"require-mode refusals are not uniform: {sorted(map(str, seen))}"
     return None
 
 
-@cond(q=40, t=120, stubs=["verify_proof := claims | ProofError(reason in spec set, detail quoting symbolic caller text)"], encoded=[pf.proxy_proof_gate],
+def _gate_sig(args: dict) -> str:
+    if args["present"] and args["raw"] == "":
+        return "C22:gate:empty-header-not-reported-malformed"
+    mode = "require" if args["require"] else "allow"
+    return f"C22:gate:{mode}-mode:wrong-outcome-or-non-uniform-refusal:expected-" + _gate_expect(args["present"], args["raw"], args["outcome"])
+
+
+@cond(q=40, t=120, stubs=["verify_proof := claims | ProofError(reason in spec set, detail quoting symbolic caller text); '' and values with a comma := ProofError(malformed), as items (a)/(e) establish for the real one"], encoded=[pf.proxy_proof_gate],
       bound="mode x header{absent, any str len<=2} x verifier outcome 0..6 (its detail carries a marker standing for caller text)",
-      replay=_replay_gate, signature=lambda args, conc: "C22:gate:refusal-not-uniform-or-wrong-reason")
+      replay=_replay_gate, signature=lambda args, conc: _gate_sig(args))
 def gate_reasons_and_uniform_refusal(require: bool, present: bool, raw: str, outcome: int) -> bool:
     """
     pre: len(raw) <= 2 and 0 <= outcome <= 6
@@ -733,38 +897,44 @@ def gate_reasons_and_uniform_refusal(require: bool, present: bool, raw: str, out
     """
     _G.update(outcome=outcome, calls=0, args=None)
     want = _gate_expect(present, raw, outcome)
-    consult = present and raw != "" and "," not in raw
+    claims = None
+    refusal = None
     try:
         claims = _GATES[require](_Req(present, raw))
     except pf.ProofError as e:
-        if _G["calls"] != (1 if consult else 0):
-            return False
-        if not require or want == "ok":
-            return False
-        # uniform: constant text, coarse public reason; the internal code is kept for logs/metrics only
-        if str(e) != "proxy proof required" or e.args != ("proxy proof required",) or "marker" in str(e):
-            return False
-        if classify_auth_failure(e) is not AuthReason.PROXY_REQUIRED:
-            return False
-        return e.reason == want and isinstance(e, PermissionError) and not isinstance(e, ValueError)
+        refusal = e
     except HarnessModelError:
         raise
     except Exception:  # noqa: BLE001
-        return False
-    if _G["calls"] != (1 if consult else 0):
-        return False
-    if consult:
+        return False  # only ProofError may escape
+    if _G["calls"]:
+        # whenever the verifier is consulted it is about this header value, with the configured key map, origin, skew,
+        # clock and a replay cache (whether an empty / multi-instance value is handed to it at all is the gate's choice)
         token, secrets, origin_id, skew, cache, now = _G["args"]
         if token is not raw and token != raw:
             return False
-        if secrets is not _SECRET_MAP or origin_id != _ORIGIN or skew != 17 or now != 4242 or cache is None:
+        if secrets != _SECRET_MAP or origin_id != _ORIGIN or skew != 17 or now != 4242 or cache is None:
             return False
+    elif present and raw != "" and "," not in raw:
+        raise HarnessModelError("the gate decided a non-empty single header value without consulting verify_proof: the verifier stub does not model that")
+    if refusal is not None:
+        if not require or want == "ok":
+            return False
+        # uniform: reads exactly like the refusal of a request with no header at all (another row of the table) and
+        # echoes nothing the verifier said; the public reason is the coarse one; it is a 401-class exception
+        ref = _REF_REFUSAL
+        if ref is None or str(refusal) != str(ref) or refusal.args != ref.args or "marker" in str(refusal):
+            return False
+        if classify_auth_failure(refusal) is not AuthReason.PROXY_REQUIRED:
+            return False
+        # the table's code is kept on the exception for logs / metrics only
+        return refusal.reason == want and isinstance(refusal, (ValueError, PermissionError))
     if want == "ok":
         return claims["verified"] == "true" and claims["proxy"] == "L" and claims["reason"] == "ok"
     if require:
         return False  # a failure must have been refused
     # allow mode: recorded, never denied, and nothing the caller claimed is attributed
-    return bool(claims["verified"] == "false" and claims["proxy"] == "" and claims["kid"] == "" and claims["origin_id"] == _ORIGIN and claims["reason"] == want and len(claims) == 5)
+    return bool(claims["verified"] == "false" and claims["proxy"] == "" and claims["kid"] == "" and claims["origin_id"] == _ORIGIN and claims["reason"] == want)
 
 
 # ---------------------------------------------------------------------------
@@ -808,7 +978,6 @@ def real_short_tokens_are_malformed(token: str, now: int) -> bool:
 
 _NOW0 = 1_700_000_000
 _MINTED = pf.mint_proof(b"\x11" * 32, "k1", _ORIGIN, now=_NOW0, nonce="abcdefghijklmnopqrstuv").split(".")
-_AL_KID = "ABCDEFGHIJKLMNOPQRSTUVWXYZabcdefghijklmnopqrstuvwxyz0123456789_-"
 
 
 def _x_of(args: dict) -> str:
@@ -829,13 +998,6 @@ def _replay_mutation(args: dict) -> str | None:
     except Exception as e:  # noqa: BLE001
         got = f"{type(e).__name__}: {e}"
     return None if got == want else f"verify_proof({token!r}, now=ts+1000) -> {got}; the decision table says {want}"
-
-
-def _all_in(x: str, alphabet: str) -> bool:
-    for c in x:
-        if c not in alphabet:
-            return False
-    return True
 
 
 def _mutation_expect(which: int, x: str) -> str:
